@@ -10,6 +10,7 @@
    PARTIAL: for the HTML append / prepend / replace stages the content clause (output = input plus insertions /
    minus whole element spans) is decided by the correspondence run on damaged documents, not by a theorem. *)
 Require Import RIO.Base RIO.TokMonad RIO.HtmlTok RIO.BodyText RIO.HtmlFilter RIO.ChainProofs RIO.BodyProofs RIO.CodecChain RIO.BodyPass.
+Require Import RIO.TokShift RIO.HtmlSplit.
 Close Scope N_scope.
 
 Theorem C04_nothing_applies : forall lower sel ctok fs chunks,
@@ -53,8 +54,22 @@ Proof.
   - intros f [<-|[<-|[<-|[<-|[]]]]]; exact I.
 Qed.
 
+
+(* PARTIAL (proof: RIO.HtmlSplit): an HTML stage whose visitor does not fire in a chunk — no tag token of the
+   chunk (held-back bytes included) names the element the visitor waits to enter or to leave — only moves bytes:
+   what it returns followed by what it still holds is what it held followed by the chunk, for every state of the
+   stage, every chunk (any bytes) and whether or not the call fails.  [tok_facts]: the totality facts about the
+   tokenizer (see C03). *)
+Theorem C04_html_conservation_partial : forall lower sel W, tok_facts lower W -> forall F input,
+  f_in_error F = false ->
+  Forall (quiet_tok (f_enter F) (f_leave F))
+         (fst (toks lower (fuel_of (f_last F ++ input)) (f_last F ++ input) (new_fragment lower (f_raw_tag F)))) ->
+  snd (hfb_filter lower sel F input) ++ held (fst (hfb_filter lower sel F input)) = held F ++ input.
+Proof. exact hfb_conservation_partial. Qed.
+
 Print Assumptions C04_nothing_applies.
 Print Assumptions C04_error_passthrough.
 Print Assumptions C04_html_error_releases.
 Print Assumptions C04_html_in_error.
 Print Assumptions C04_text_insert_only.
+Print Assumptions C04_html_conservation_partial.
